@@ -199,7 +199,8 @@ def run_source(sc):
         rec.rec('end')
 
     try:
-        lp.run_until_complete(main())
+        with simloop.guard_blocking():
+            lp.run_until_complete(main())
     except simloop.Deadlock:
         status[0] = 'deadlock'
         rec.rec('deadlock')
